@@ -1785,7 +1785,7 @@ uint32_t bufr_cvt_fval_to_i32(int code, BufrValueEncoding *be, float fval)
    maxval = (1ULL << be->nbits) - 1;
    ival_pow = val_pow = pow(10.0,(double)be->scale);
    fmin = be->reference / val_pow;
-   fmax = ((maxval-1) + be->reference) / val_pow;
+   fmax = ((int64_t)(maxval-1) + be->reference) / val_pow;
 
    if (fval > fmax)
       {
@@ -1838,6 +1838,7 @@ uint32_t bufr_cvt_fval_to_i32(int code, BufrValueEncoding *be, float fval)
       {
       int sval = round(fval * val_pow);
       ival = sval - be->reference;
+      if (ival >= maxval) overflow = 1;
       }
 
    if (underflow)
@@ -1994,7 +1995,7 @@ uint64_t bufr_cvt_dval_to_i64(int code, BufrValueEncoding *be, double fval)
    maxval = (1ULL << be->nbits) - 1;
    ival_pow = val_pow = pow(10.0,(double)be->scale);
    fmin = be->reference / val_pow;
-   fmax = ((maxval-1) + be->reference) / val_pow;
+   fmax = ((int64_t)(maxval-1) + be->reference) / val_pow;
 
    if (fval > fmax)
       {
@@ -2047,6 +2048,7 @@ uint64_t bufr_cvt_dval_to_i64(int code, BufrValueEncoding *be, double fval)
       {
       int64_t sval = round(fval * val_pow);
       ival = sval - be->reference;
+      if (ival >= maxval) overflow = 1;
       }
 
    if (underflow)
